@@ -265,7 +265,8 @@ func (vr *variableResolver) resolve(ctx *ExecutionContext) (*Value, error) {
 		for _, part := range vr.parts {
 			switch v := part.subscript.(type) {
 			case *nodeFilteredVariable:
-				item, err := v.resolver.Evaluate(ctx)
+				// evaluate the item including the filters written after it
+				item, err := v.Evaluate(ctx)
 				if err != nil {
 					return nil, err
 				}
